@@ -62,12 +62,18 @@ def bounds(tier):
 
 def cases(tier, seed):
     b = bounds(tier)
+    nscaled = 0
     for idx in signals.fa_indices(4, 3, b['max_len']):
         yield ('fa', idx, seed, tier)
         if len(idx) >= 6:
             mx, mn = signals.strict_extrema(idx)
             if len(mx) >= 2 and len(mn) >= 2:
                 yield ('fa-res', idx, seed, tier)
+                nscaled += 1
+                if tier != 'quick' or nscaled % 6 == 0:
+                    yield ('fa-tiny', idx, seed, tier)
+                if tier != 'quick' or nscaled % 6 == 3:
+                    yield ('fa-huge', idx, seed, tier)
     for name in signals.fb_names(b['fb_sizes']):
         yield ('fb', name, seed, tier)
         if name[1] <= 100:
@@ -79,8 +85,12 @@ def decode_case(c):
 
 
 def signal_of(case):
-    if case[0] in ('fa', 'fa-res'):
+    if case[0] in ('fa', 'fa-res', 'fa-tiny', 'fa-huge'):
         x = signals.fa_signal(case[1], 4, case[2])
+        if case[0] == 'fa-tiny':
+            return x * 1e-9        # sum(x^2) ~ 1e-17: absolute guards (eps, 1e-8, ...) in a scale-free rule show up here
+        if case[0] == 'fa-huge':
+            return x * 1e7
     else:
         x = signals.fb_signal(case[1], case[2])
     if case[0].endswith('-res'):
@@ -181,7 +191,7 @@ def check_case(case):
     b = bounds(tier)
     mx, mn = signals.strict_extrema(x)
     input_final = len(mx) < 2 or len(mn) < 2
-    scale = 1e-10 * (1 + np.max(np.abs(x)))
+    scale = 1e-10 * np.max(np.abs(x))      # purely relative: tiny and huge signals are judged as strictly as unit ones
     viols = []
     trans = 0
     excluded = 0
